@@ -249,3 +249,19 @@ CONFIG["C15"] = {
                                          "output assets and values are never null here (no documented reading); the annex is the last witness item when it starts with 0x50, hashed without the tag byte, as the environment builder documents"],
     "counter_floors": {"quick": {"reference-checked": 100000, "sighash-compared": 800}, "thorough": {"reference-checked": 5000000}},
 }
+
+CONFIG["C16"] = {
+    "budget_s": {"quick": 150, "thorough": 1800},
+    "floor": {"quick": 6000, "thorough": 200000},
+    "rule": ("a case is a policy over 4 key pairs and 4 hash preimages drawn per case, with after(n) and older(n) leaves placed at, just below and just above the lock height / lock distance the jets read from the case's generated transaction "
+             "(lock time 0, small, 499999999, >= 500000000 or random; sequences final, 0xfffffffe, block-based, time-based, disabled or random; version 1, 2, 3 or 2^32-1), trivial and unsatisfiable leaves, and and/or/threshold (1..6 children, 0 <= k <= n) "
+             "nodes to depth 5 and 40 nodes. Sub `small-policies-all-availability` enumerates 7 two-level shapes x 9^3 leaf triples and all 8 availability patterns of the keys and the preimage they mention; sub `generated-policies` samples trees "
+             "and, per tree, 4 availability patterns (all, none, 2 random). Per pattern the satisfier returns signatures over the environment's sighash for the available keys, preimages for the available hashes and the jets' own answer for the locks. "
+             "Monitors: Policy::cmr() = commit().cmr() = cmr of every satisfied program; satisfy returns a program iff the model evaluates the policy true (and: both, or: either, threshold: at least k) and Unsatisfiable otherwise; "
+             "the returned program runs successfully in the environment within its declared bounds, all its witnesses are well typed, no fail node survives, and the C evaluator accepts it with all anti-DoS checks and computes the same CMR; "
+             "sorted() is idempotent, is a reordering of the policy (model canonical forms equal), and equals sorted() of three random reorderings of the commutative children at every depth. "
+             "Non-trivial: policies with at least one connective; distinct: distinct (policy, transaction) renderings."),
+    "assumptions": COMMON_ASSUMPTIONS + ["lock truth is what the check_lock_height and broken_do_not_use_check_lock_distance jets compare against (validated against the jets in C15)",
+                                         "signatures are BIP-340 signatures over CTxEnv::sighash_all() of an environment whose script CMR is the policy's CMR"],
+    "counter_floors": {"quick": {"satisfy.true-satisfied": 15000, "satisfy.false-refused": 15000, "sort.permutations-compared": 10000, "leaf.after.true": 300, "leaf.after.false": 300, "leaf.older.true": 300, "leaf.older.false": 300}},
+}
